@@ -139,7 +139,15 @@ func extractGenerated(src string) (svcs []*obsSvc, err error) {
 			}
 			st := obsStub{goName: fd.Name.Name, shape: -1}
 			sendsIn := false
+			wrapType := ""
 			ast.Inspect(fd.Body, func(n ast.Node) bool {
+				if cl, ok := n.(*ast.CompositeLit); ok && len(cl.Elts) == 1 {
+					if e, ok := cl.Elts[0].(*ast.Ident); ok && e.Name == "stream" {
+						if t, ok := cl.Type.(*ast.Ident); ok {
+							wrapType = t.Name
+						}
+					}
+				}
 				call, ok := n.(*ast.CallExpr)
 				if !ok {
 					return true
@@ -183,6 +191,11 @@ func extractGenerated(src string) (svcs []*obsSvc, err error) {
 			})
 			if st.shape == 2 && sendsIn {
 				st.shape = 1
+			}
+			// a streaming stub wraps the stream in the struct protoc-gen-go-grpc declares for the method:
+			// <service, unexported><Method>Client; any other name is not declared in the package
+			if want := strings.TrimSuffix(id.Name, "ChannelClient") + fd.Name.Name + "Client"; wrapType != "" && wrapType != want {
+				return nil, fmt.Errorf("stub %s wraps its stream in %s, which the package does not declare (the generated gRPC code declares %s)", fd.Name.Name, wrapType, want)
 			}
 			s.stubs = append(s.stubs, st)
 		}
@@ -412,6 +425,13 @@ func multiFile(o *hx.Out, r *hx.Rand, bin string, thorough bool) {
 			pkgB, goB = "acme.orders", "example.com/gen/orders"
 		}
 		common := mk("common.proto", pkgA, goA)
+		// sometimes the imported file's path starts with a capital M and an M option maps it to another Go package:
+		// the stubs then import its messages from THAT package
+		mapped := ""
+		if !samePkg && !useImportPath && forced == 0 && it%2 == 0 {
+			common.Name = str(r.Pick([]string{"Models/common.proto", "Money.proto", "MMM/types.proto"}))
+			mapped = "example.com/mapped/models"
+		}
 		common.MessageType = []*descriptorpb.DescriptorProto{{Name: str("Req")}, {Name: str("Resp")}}
 		withSvc := func(f *descriptorpb.FileDescriptorProto, pkg string, svcs []string) (terms []string, descs []interface{}) {
 			f.Dependency = []string{common.GetName(), "google/protobuf/empty.proto"}
@@ -477,6 +497,9 @@ func multiFile(o *hx.Out, r *hx.Rand, bin string, thorough bool) {
 		if useImportPath {
 			params = append(params, "import_path=example.com/gen/api")
 		}
+		if mapped != "" {
+			params = append(params, "M"+common.GetName()+"="+mapped)
+		}
 		param := strings.Join(params, ",")
 		creq := &pluginpb.CodeGeneratorRequest{FileToGenerate: toGen, ProtoFile: []*descriptorpb.FileDescriptorProto{emptyDep, common, orders, users}}
 		if param != "" {
@@ -485,6 +508,10 @@ func multiFile(o *hx.Out, r *hx.Rand, bin string, thorough bool) {
 		resp, err := runPlugin(bin, creq)
 		allowed := map[string]bool{"context": true, "google.golang.org/grpc": true, "github.com/fullstorydev/grpchan": true,
 			"google.golang.org/protobuf/types/known/emptypb": true, "github.com/golang/protobuf/ptypes/empty": true, goA: true, goB: true}
+		if mapped != "" {
+			delete(allowed, goA)
+			allowed[mapped] = true
+		}
 		for fi, f := range []struct {
 			fd    *descriptorpb.FileDescriptorProto
 			terms []string
